@@ -11,7 +11,7 @@
      p_table / p_fields / p_field = Parser.TableConstructor / its loop / Parser.Field
 
    The end of the token list stands for the EOF token.  Go's recursion and
-   loops become recursion on a fuel argument; [OutOfFuel] is distinct from
+   loops become recursion on a fuel argument (every call costs one unit); [OutOfFuel] is distinct from
    every real outcome.  A Go  panic(Error{Got: t})  becomes [Err rest] where
    [rest] is the token list starting at the offending token [t] (so its
    position — hence its line — is determined).  'function' expressions need
@@ -90,196 +90,215 @@ Definition in_brackets (e : exp) : exp := if is_call e then EParen e else e.
 
 Definition is_sep (t : token) : bool := match t with TComma | TSemi => true | _ => false end.
 
-Fixpoint p_exp (n : nat) (ts : list token) {struct n} : res (exp * list token) :=
-  match n with
-  | O => OutOfFuel
-  | S n => bind (p_short n ts) (fun r => p_loop n [] (fst r, OpOr) (snd r))
-  end
+(* The nine mutually recursive parser functions.  [step P] is one unfolding of
+   all of them, the recursive calls going to the record [P] (the functions with
+   one unit of fuel less); [parsers_at n] ties the knot on the fuel. *)
+Record parsers := {
+  r_exp : list token -> res (exp * list token);
+  r_loop : list item -> item -> list token -> res (exp * list token);
+  r_short : list token -> res (exp * list token);
+  r_prefix : list token -> res (exp * list token);
+  r_suffix : exp -> list token -> res (exp * list token);
+  r_args : list token -> res (option (list exp) * list token);
+  r_explist : list token -> res (list exp * list token);
+  r_table : list token -> res (exp * list token);
+  r_fields : list token -> res (list field * list token);
+  r_field : list token -> res (field * list token)
+}.
 
-with p_loop (n : nat) (stack : list item) (last : item) (ts : list token) {struct n}
-  : res (exp * list token) :=
-  match n with
-  | O => OutOfFuel
-  | S n =>
-    match ts with
-    | t :: ts' =>
-      match binop_of t with
-      | Some op =>
-        bind (p_short n ts') (fun r =>
-          let sl := reduce op stack last in
-          p_loop n (snd sl :: fst sl) (fst r, op) (snd r))
-      | None => Ok (unwind stack last, ts)
-      end
-    | [] => Ok (unwind stack last, ts)
+Definition bottom : parsers := {|
+  r_exp := fun _ => OutOfFuel; r_loop := fun _ _ _ => OutOfFuel; r_short := fun _ => OutOfFuel;
+  r_prefix := fun _ => OutOfFuel; r_suffix := fun _ _ => OutOfFuel; r_args := fun _ => OutOfFuel;
+  r_explist := fun _ => OutOfFuel; r_table := fun _ => OutOfFuel; r_fields := fun _ => OutOfFuel;
+  r_field := fun _ => OutOfFuel |}.
+
+Section Step.
+Variable P : parsers.
+
+(* Parser.Exp *)
+Definition s_exp (ts : list token) : res (exp * list token) :=
+  bind (r_short P ts) (fun r => r_loop P [] (fst r, OpOr) (snd r)).
+
+(* the  for t.Type.IsBinOp()  loop of Parser.Exp, then the final unwinding *)
+Definition s_loop (stack : list item) (last : item) (ts : list token) : res (exp * list token) :=
+  match ts with
+  | t :: ts' =>
+    match binop_of t with
+    | Some op =>
+      bind (r_short P ts') (fun r =>
+        let sl := reduce op stack last in
+        r_loop P (snd sl :: fst sl) (fst r, op) (snd r))
+    | None => Ok (unwind stack last, ts)
     end
-  end
-
-with p_short (n : nat) (ts : list token) {struct n} : res (exp * list token) :=
-  match n with
-  | O => OutOfFuel
-  | S n =>
-    let r :=
-      match ts with
-      | t :: ts' =>
-        match short_head t with
-        | HAtom e => Ok (e, ts')
-        | HTable => p_table n ts'
-        | HFunction => Unsupported
-        | HUn o => bind (p_short n ts') (fun r => Ok (EUn o (fst r), snd r))
-        | HOther => p_prefix n ts
-        end
-      | [] => p_prefix n ts
-      end in
-    match r with
-    | Ok (e, THat :: ts1) => bind (p_short n ts1) (fun r => Ok (EBin OpPow e (fst r), snd r))
-    | _ => r
-    end
-  end
-
-with p_prefix (n : nat) (ts : list token) {struct n} : res (exp * list token) :=
-  match n with
-  | O => OutOfFuel
-  | S n =>
-    match ts with
-    | TLParen :: ts' =>
-      bind (p_exp n ts') (fun r =>
-        match snd r with
-        | TRParen :: ts2 => p_suffix n (in_brackets (fst r)) ts2
-        | ts2 => Err ts2
-        end)
-    | TName k :: ts' => p_suffix n (EName k) ts'
-    | _ => Err ts
-    end
-  end
-
-with p_suffix (n : nat) (e : exp) (ts : list token) {struct n} : res (exp * list token) :=
-  match n with
-  | O => OutOfFuel
-  | S n =>
-    match ts with
-    | TLBrack :: ts' =>
-      bind (p_exp n ts') (fun r =>
-        match snd r with
-        | TRBrack :: ts2 => p_suffix n (EIndex e (fst r)) ts2
-        | ts2 => Err ts2
-        end)
-    | TDot :: ts' =>
-      match ts' with
-      | TName k :: ts2 => p_suffix n (EIndex e (EStr k)) ts2
-      | _ => Err ts'
-      end
-    | TColon :: ts' =>
-      match ts' with
-      | TName k :: ts2 =>
-        bind (p_args n ts2) (fun r =>
-          match fst r with
-          | Some args => p_suffix n (ECall e (Some k) false args) (snd r)
-          | None => Err (snd r)
-          end)
-      | _ => Err ts'
-      end
-    | _ =>
-      bind (p_args n ts) (fun r =>
-        match fst r with
-        | Some args => p_suffix n (ECall e None false args) (snd r)
-        | None => Ok (e, snd r)
-        end)
-    end
-  end
-
-with p_args (n : nat) (ts : list token) {struct n} : res (option (list exp) * list token) :=
-  match n with
-  | O => OutOfFuel
-  | S n =>
-    match ts with
-    | TLParen :: ts' =>
-      match ts' with
-      | TRParen :: ts2 => Ok (Some [], ts2)
-      | _ =>
-        bind (p_explist n ts') (fun r =>
-          match snd r with
-          | TRParen :: ts2 => Ok (Some (fst r), ts2)
-          | ts2 => Err ts2
-          end)
-      end
-    | TLBrace :: ts' => bind (p_table n ts') (fun r => Ok (Some [fst r], snd r))
-    | TStr k :: ts' => Ok (Some [EStr k], ts')
-    | TLStr k :: ts' => Ok (Some [EStr k], ts')
-    | _ => Ok (None, ts)
-    end
-  end
-
-with p_explist (n : nat) (ts : list token) {struct n} : res (list exp * list token) :=
-  match n with
-  | O => OutOfFuel
-  | S n =>
-    bind (p_exp n ts) (fun r =>
-      match snd r with
-      | TComma :: ts1 => bind (p_explist n ts1) (fun r2 => Ok (fst r :: fst r2, snd r2))
-      | ts1 => Ok ([fst r], ts1)
-      end)
-  end
-
-(* called after '{' has been consumed *)
-with p_table (n : nat) (ts : list token) {struct n} : res (exp * list token) :=
-  match n with
-  | O => OutOfFuel
-  | S n =>
-    match ts with
-    | TRBrace :: ts' => Ok (ETable [] false, ts')
-    | _ =>
-      bind (p_fields n ts) (fun r =>
-        match snd r with
-        | TRBrace :: ts2 => Ok (ETable (fst r) false, ts2)
-        | ts2 => Err ts2
-        end)
-    end
-  end
-
-with p_fields (n : nat) (ts : list token) {struct n} : res (list field * list token) :=
-  match n with
-  | O => OutOfFuel
-  | S n =>
-    bind (p_field n ts) (fun r =>
-      match snd r with
-      | t :: ts1 =>
-        if is_sep t then
-          match ts1 with
-          | TRBrace :: _ => Ok ([fst r], ts1)
-          | _ => bind (p_fields n ts1) (fun r2 => Ok (fst r :: fst r2, snd r2))
-          end
-        else Ok ([fst r], snd r)
-      | [] => Ok ([fst r], [])
-      end)
-  end
-
-with p_field (n : nat) (ts : list token) {struct n} : res (field * list token) :=
-  match n with
-  | O => OutOfFuel
-  | S n =>
-    match ts with
-    | TLBrack :: ts' =>
-      bind (p_exp n ts') (fun r =>
-        match snd r with
-        | TRBrack :: ts2 =>
-          match ts2 with
-          | TAssign :: ts3 => bind (p_exp n ts3) (fun r2 => Ok ((FKey, fst r, fst r2, false), snd r2))
-          | _ => Err ts2
-          end
-        | ts2 => Err ts2
-        end)
-    | _ =>
-      bind (p_exp n ts) (fun r =>
-        match snd r with
-        | TAssign :: ts1 =>
-          match fst r with
-          | EName k => bind (p_exp n ts1) (fun r2 => Ok ((FKey, EStr k, fst r2, false), snd r2))
-          | _ => Err (snd r)
-          end
-        | ts1 => Ok ((FPos, ENil, fst r, false), ts1)
-        end)
-    end
+  | [] => Ok (unwind stack last, ts)
   end.
+
+(* Parser.ShortExp: the switch … *)
+Definition s_short1 (ts : list token) : res (exp * list token) :=
+  match ts with
+  | t :: ts' =>
+    match short_head t with
+    | HAtom e => Ok (e, ts')
+    | HTable => r_table P ts'
+    | HFunction => Unsupported
+    | HUn o => bind (r_short P ts') (fun r => Ok (EUn o (fst r), snd r))
+    | HOther => r_prefix P ts
+    end
+  | [] => r_prefix P ts
+  end.
+
+(* … and  if t.Type == token.SgHat { pow, t = p.ShortExp(p.Scan()); … } *)
+Definition s_pow_tail (r : res (exp * list token)) : res (exp * list token) :=
+  match r with
+  | Ok (e, THat :: ts1) => bind (r_short P ts1) (fun r => Ok (EBin OpPow e (fst r), snd r))
+  | _ => r
+  end.
+
+Definition s_short (ts : list token) : res (exp * list token) := s_pow_tail (s_short1 ts).
+
+(* Parser.PrefixExp up to its loop *)
+Definition s_prefix (ts : list token) : res (exp * list token) :=
+  match ts with
+  | TLParen :: ts' =>
+    bind (r_exp P ts') (fun r =>
+      match snd r with
+      | TRParen :: ts2 => r_suffix P (in_brackets (fst r)) ts2
+      | ts2 => Err ts2
+      end)
+  | TName k :: ts' => r_suffix P (EName k) ts'
+  | _ => Err ts
+  end.
+
+(* the  for { switch t.Type … }  loop of Parser.PrefixExp *)
+Definition s_suffix (e : exp) (ts : list token) : res (exp * list token) :=
+  match ts with
+  | TLBrack :: ts' =>
+    bind (r_exp P ts') (fun r =>
+      match snd r with
+      | TRBrack :: ts2 => r_suffix P (EIndex e (fst r)) ts2
+      | ts2 => Err ts2
+      end)
+  | TDot :: ts' =>
+    match ts' with
+    | TName k :: ts2 => r_suffix P (EIndex e (EStr k)) ts2
+    | _ => Err ts'
+    end
+  | TColon :: ts' =>
+    match ts' with
+    | TName k :: ts2 =>
+      bind (r_args P ts2) (fun r =>
+        match fst r with
+        | Some args => r_suffix P (ECall e (Some k) false args) (snd r)
+        | None => Err (snd r)
+        end)
+    | _ => Err ts'
+    end
+  | _ =>
+    bind (r_args P ts) (fun r =>
+      match fst r with
+      | Some args => r_suffix P (ECall e None false args) (snd r)
+      | None => Ok (e, snd r)
+      end)
+  end.
+
+(* Parser.Args *)
+Definition s_args (ts : list token) : res (option (list exp) * list token) :=
+  match ts with
+  | TLParen :: ts' =>
+    match ts' with
+    | TRParen :: ts2 => Ok (Some [], ts2)
+    | _ =>
+      bind (r_explist P ts') (fun r =>
+        match snd r with
+        | TRParen :: ts2 => Ok (Some (fst r), ts2)
+        | ts2 => Err ts2
+        end)
+    end
+  | TLBrace :: ts' => bind (r_table P ts') (fun r => Ok (Some [fst r], snd r))
+  | TStr k :: ts' => Ok (Some [EStr k], ts')
+  | TLStr k :: ts' => Ok (Some [EStr k], ts')
+  | _ => Ok (None, ts)
+  end.
+
+(* Parser.ExpList *)
+Definition s_explist (ts : list token) : res (list exp * list token) :=
+  bind (r_exp P ts) (fun r =>
+    match snd r with
+    | TComma :: ts1 => bind (r_explist P ts1) (fun r2 => Ok (fst r :: fst r2, snd r2))
+    | ts1 => Ok ([fst r], ts1)
+    end).
+
+(* Parser.TableConstructor, after '{' has been consumed *)
+Definition s_table (ts : list token) : res (exp * list token) :=
+  match ts with
+  | TRBrace :: ts' => Ok (ETable [] false, ts')
+  | _ =>
+    bind (r_fields P ts) (fun r =>
+      match snd r with
+      | TRBrace :: ts2 => Ok (ETable (fst r) false, ts2)
+      | ts2 => Err ts2
+      end)
+  end.
+
+Definition s_fields (ts : list token) : res (list field * list token) :=
+  bind (r_field P ts) (fun r =>
+    match snd r with
+    | t :: ts1 =>
+      if is_sep t then
+        match ts1 with
+        | TRBrace :: _ => Ok ([fst r], ts1)
+        | _ => bind (r_fields P ts1) (fun r2 => Ok (fst r :: fst r2, snd r2))
+        end
+      else Ok ([fst r], snd r)
+    | [] => Ok ([fst r], [])
+    end).
+
+(* Parser.Field *)
+Definition s_field (ts : list token) : res (field * list token) :=
+  match ts with
+  | TLBrack :: ts' =>
+    bind (r_exp P ts') (fun r =>
+      match snd r with
+      | TRBrack :: ts2 =>
+        match ts2 with
+        | TAssign :: ts3 => bind (r_exp P ts3) (fun r2 => Ok ((FKey, fst r, fst r2, false), snd r2))
+        | _ => Err ts2
+        end
+      | ts2 => Err ts2
+      end)
+  | _ =>
+    bind (r_exp P ts) (fun r =>
+      match snd r with
+      | TAssign :: ts1 =>
+        match fst r with
+        | EName k => bind (r_exp P ts1) (fun r2 => Ok ((FKey, EStr k, fst r2, false), snd r2))
+        | _ => Err (snd r)
+        end
+      | ts1 => Ok ((FPos, ENil, fst r, false), ts1)
+      end)
+  end.
+
+Definition step : parsers := {|
+  r_exp := s_exp; r_loop := s_loop; r_short := s_short; r_prefix := s_prefix; r_suffix := s_suffix;
+  r_args := s_args; r_explist := s_explist; r_table := s_table; r_fields := s_fields; r_field := s_field |}.
+End Step.
+
+Fixpoint parsers_at (n : nat) : parsers :=
+  match n with
+  | O => bottom
+  | S n => step (parsers_at n)
+  end.
+
+Definition p_exp (n : nat) := r_exp (parsers_at n).
+Definition p_loop (n : nat) := r_loop (parsers_at n).
+Definition p_short (n : nat) := r_short (parsers_at n).
+Definition p_prefix (n : nat) := r_prefix (parsers_at n).
+Definition p_suffix (n : nat) := r_suffix (parsers_at n).
+Definition p_args (n : nat) := r_args (parsers_at n).
+Definition p_explist (n : nat) := r_explist (parsers_at n).
+Definition p_table (n : nat) := r_table (parsers_at n).
+Definition p_fields (n : nat) := r_fields (parsers_at n).
+Definition p_field (n : nat) := r_field (parsers_at n).
 
 (* parsing.ParseExp: one expression, then EOF is expected *)
 Definition parse_fuel (n : nat) (ts : list token) : res exp :=
